@@ -219,34 +219,7 @@ func Observe(p docgen.Plan, out *Outcome) error {
 			putAmount(fig, "totals."+k, t[k])
 		}
 		if tx := mp(t["taxes"]); tx != nil {
-			putAmount(fig, "totals.taxes.sum", tx["sum"])
-			for ci, c := range arr(tx["categories"]) {
-				cm := mp(c)
-				cp := fmt.Sprintf("totals.taxes.categories[%d]", ci)
-				fig[cp+".code"] = str(cm["code"])
-				if b, _ := cm["retained"].(bool); b {
-					fig[cp+".retained"] = "true"
-				}
-				putAmount(fig, cp+".amount", cm["amount"])
-				putAmount(fig, cp+".surcharge", cm["surcharge"])
-				for ri, r := range arr(cm["rates"]) {
-					rm := mp(r)
-					rp := fmt.Sprintf("%s.rates[%d]", cp, ri)
-					putAmount(fig, rp+".base", rm["base"])
-					putAmount(fig, rp+".amount", rm["amount"])
-					putAmount(fig, rp+".percent", rm["percent"])
-					if s := mp(rm["surcharge"]); s != nil {
-						putAmount(fig, rp+".surcharge.amount", s["amount"])
-						putAmount(fig, rp+".surcharge.percent", s["percent"])
-					}
-					if s := str(rm["country"]); s != "" {
-						fig[rp+".country"] = s
-					}
-					if e := refcalc.ExtKey(extMap(rm["ext"])); e != "" {
-						fig[rp+".ext"] = e
-					}
-				}
-			}
+			FlattenTaxes(fig, "totals.taxes", tx)
 		}
 	}
 	// without totals nothing was calculated: advances and due dates are still raw input
@@ -317,4 +290,36 @@ func FiguresOf(p docgen.Plan, obj *schema.Object) (*Outcome, error) {
 		return nil, err
 	}
 	return out, nil
+}
+
+// FlattenTaxes writes the figures of a serialised tax.Total under prefix.
+func FlattenTaxes(fig map[string]string, prefix string, tx map[string]any) {
+	putAmount(fig, prefix+".sum", tx["sum"])
+	for ci, c := range arr(tx["categories"]) {
+		cm := mp(c)
+		cp := fmt.Sprintf("%s.categories[%d]", prefix, ci)
+		fig[cp+".code"] = str(cm["code"])
+		if b, _ := cm["retained"].(bool); b {
+			fig[cp+".retained"] = "true"
+		}
+		putAmount(fig, cp+".amount", cm["amount"])
+		putAmount(fig, cp+".surcharge", cm["surcharge"])
+		for ri, r := range arr(cm["rates"]) {
+			rm := mp(r)
+			rp := fmt.Sprintf("%s.rates[%d]", cp, ri)
+			putAmount(fig, rp+".base", rm["base"])
+			putAmount(fig, rp+".amount", rm["amount"])
+			putAmount(fig, rp+".percent", rm["percent"])
+			if s := mp(rm["surcharge"]); s != nil {
+				putAmount(fig, rp+".surcharge.amount", s["amount"])
+				putAmount(fig, rp+".surcharge.percent", s["percent"])
+			}
+			if s := str(rm["country"]); s != "" {
+				fig[rp+".country"] = s
+			}
+			if e := refcalc.ExtKey(extMap(rm["ext"])); e != "" {
+				fig[rp+".ext"] = e
+			}
+		}
+	}
 }
